@@ -4,6 +4,7 @@
   cacher's goroutine actually runs every CacheExpiry is observed by a liveness probe, not proved.
 -/
 import SV.Misc.TimeCacheProofs
+import SV.Misc.TimeCacheMore
 namespace SV.Props.C18
 open SV SV.TimeCache
 
@@ -36,5 +37,49 @@ theorem brackets_sound_sweep (i : I) (tc : TC) (lo t hi : Nat) (h : Sandwich i t
     Sandwich (i.sweep lo hi) (sweep tc t) := Sandwich.sweep i tc lo t hi h h1 h2
 theorem verdict_sound (i : I) (tc : TC) (k : Bytes) (h : Sandwich i tc) :
     (has i.must k = true → has tc k = true) ∧ (has tc k = true → has i.may k = true) := Sandwich.verdict i tc k h
+
+/-! ### history-level statements (SV.Misc.TimeCacheMore) -/
+
+/-- a key set by Add/AddWithSpan/Upsert/Put at reading `t0` is reported present at EVERY later point of ANY history in
+    which no operation touches it (HasOrAdd of the key and operations on other keys are allowed, with any readings), as long
+    as the sweeps read ≤ t0 + d, where d is the span the setting operation left (replaced by Add, max for Upsert) -/
+theorem present_at_every_query_until_span_elapsed (tc : TC) (pre post : List (Op × Nat)) (o : Op) (t0 : Nat) (k : Bytes)
+    (h : KeysNodup tc) (hset : sets k o = true) (hno : ∀ p ∈ post, touches k p.1 = false)
+    (ht : ∀ p ∈ post, isSweep p.1 = true → p.2 ≤ t0 + spanAfter (pre.foldl step tc) k o) (n : Nat) :
+    has ((pre ++ (o, t0) :: post.take n).foldl step tc) k = true :=
+  present_until_expiry_every_query tc pre post o t0 k h hset hno ht n
+/-- …and a sweep reading > t0 + d removes it for good (until something re-creates it) -/
+theorem gone_after_a_sweep_past_the_span (tc : TC) (pre mid rest : List (Op × Nat)) (o : Op) (t0 ts : Nat) (k : Bytes)
+    (h : KeysNodup tc) (hset : sets k o = true) (hno : ∀ p ∈ mid, touches k p.1 = false)
+    (ht : ∀ p ∈ mid, isSweep p.1 = true → p.2 ≤ t0 + spanAfter (pre.foldl step tc) k o)
+    (hts : t0 + spanAfter (pre.foldl step tc) k o < ts) (hrest : ∀ p ∈ rest, revives k p.1 = false) :
+    has ((pre ++ (o, t0) :: (mid ++ (Op.sweep, ts) :: rest)).foldl step tc) k = false :=
+  gone_after_expiry_sweep tc pre mid rest o t0 ts k h hset hno ht hts hrest
+/-- Upsert never shortens the remaining life of a key (monotone clock): new expiry ≥ old expiry and ≥ now + span -/
+theorem upsert_never_shortens_life (tc : TC) (k v : Bytes) (span now : Nat) (e : Entry)
+    (he : alookup k tc = some e) (hmono : e.timestamp ≤ now) :
+    ∃ e', alookup k (upsert tc k v span now) = some e' ∧ e'.timestamp = now ∧ e'.span = max e.span span ∧ e'.value = e.value ∧
+      e.timestamp + e.span ≤ e'.timestamp + e'.span ∧ now + span ≤ e'.timestamp + e'.span :=
+  upsert_never_shortens tc k v span now e he hmono
+/-- the self-sweeping cacher (timeCacher API over the same core, background sweep = explicit event): after Put(k, v) and
+    until its span has elapsed Get/Peek return v, Has/Keys/Len see it and HasOrAdd leaves it alone -/
+theorem cacher_serves_latest_put_until_expiry (c : Core) (pre post : List (AOp × Nat)) (k v : Bytes) (t0 : Nat) (hk : k ≠ [])
+    (h : KeysNodup c.data) (hno : ∀ p ∈ post, atouches k p.1 = false)
+    (ht : ∀ p ∈ post, aIsSweep p.1 = true → p.2 ≤ t0 + c.defaultSpan) :
+    let c' := (pre ++ (.put k v, t0) :: post).foldl astep c
+    c'.get k = some v ∧ c'.peek k = some v ∧ c'.has k = true ∧ k ∈ c'.keys ∧ 0 < c'.len ∧
+      (∀ v' now, c'.hasOrAdd k v' now = (c', true, false)) := cacher_retained c pre post k v t0 hk h hno ht
+/-- interval soundness now covers HasOrAdd as well, and whole histories through the three caches' API (Clear included):
+    whatever the true readings inside their brackets, certainly-present ⇒ present ⇒ possibly-present -/
+theorem brackets_sound_hasOrAdd (i : I) (tc : TC) (k v : Bytes) (span lo t hi : Nat) (h : Sandwich i tc) (h1 : lo ≤ t) (h2 : t ≤ hi) :
+    Sandwich (i.hasOrAdd k v span lo hi) (hasOrAdd tc k v span t).1 := Sandwich.hasOrAdd i tc k v span lo t hi h h1 h2
+theorem hasOrAdd_flags_decided_when_certain (i : I) (tc : TC) (k v : Bytes) (span t : Nat) (h : Sandwich i tc) :
+    (has i.must k = true → (TimeCache.hasOrAdd tc k v span t).2.1 = true ∧ (TimeCache.hasOrAdd tc k v span t).2.2 = false) ∧
+    (has i.may k = false → (TimeCache.hasOrAdd tc k v span t).2.1 = false ∧ (TimeCache.hasOrAdd tc k v span t).2.2 = true) :=
+  Sandwich.hasOrAdd_flags i tc k v span t h
+theorem verdict_sound_for_every_history (ops : List BAOp) (d : Nat) (hok : ∀ b ∈ ops, b.ok) (k : Bytes) :
+    (has (ops.foldl (I.astep d) ⟨[], []⟩).must k = true → ((ops.map BAOp.exact).foldl TimeCache.astep (Core.new d)).has k = true) ∧
+    (((ops.map BAOp.exact).foldl TimeCache.astep (Core.new d)).has k = true → has (ops.foldl (I.astep d) ⟨[], []⟩).may k = true) :=
+  api_interval_run_verdict ops d hok k
 
 end SV.Props.C18
